@@ -441,3 +441,11 @@ func VerifC07_EncodeAnyLengths() {
 		sym.Reach("too-large")
 	}
 }
+
+// VerifC07_RewrittenLengthsKeepTheStreamFramed: the rewriter-length run read for
+// C07: a message whose rewritten form crosses a header-width boundary must not
+// produce an event the upstream cannot frame (such a chunk is refused and
+// resent forever, with every record packed around it).
+//
+//verif:reach decoded
+func VerifC07_RewrittenLengthsKeepTheStreamFramed() { VerifC10_RewriterLengths() }
